@@ -18,7 +18,7 @@ macro_rules! vec {
     ($($x:expr),+ $(,)?) => {{ let mut v = $crate::avec::AVec::new(); $( v.push($x); )+ v }};
 }
 
-#[path = "../../e2/src/avec.rs"]
+#[path = "/verif/kani/e2/src/avec.rs"]
 pub mod avec;
 
 pub use rustemo::{err, LOG, LOG_BOLD, WARN, WARN_BOLD};
@@ -156,6 +156,7 @@ pub mod lr {
     pub mod parser {
         use crate::shadow::*;
         include!("../gen/rt/lr_parser.rs");
+        include!("lr_step.rs");
     }
 }
 
